@@ -174,6 +174,15 @@ func ExprKey(v ssa.Value) string {
 		return "(" + ExprKey(x.X) + ")." + n
 	case *ssa.IndexAddr:
 		return "&(" + ExprKey(x.X) + ")[" + ExprKey(x.Index) + "]"
+	case *ssa.Call:
+		// pure constructors of the time package: equal arguments give equal values
+		if f := x.Call.StaticCallee(); f != nil && f.Pkg != nil && f.Pkg.Pkg.Path() == "time" && (f.Name() == "Unix" || f.Name() == "UnixMilli" || f.Name() == "UnixMicro") {
+			var as []string
+			for _, a := range x.Call.Args {
+				as = append(as, ExprKey(a))
+			}
+			return "time." + f.Name() + "(" + strings.Join(as, ",") + ")"
+		}
 	case *ssa.Const:
 		return "const:" + x.String()
 	case *ssa.TypeAssert:
@@ -303,3 +312,7 @@ func storesInto(al ssa.Value, f func(ssa.Value) bool) bool {
 	}
 	return false
 }
+
+// DependsOnThroughAppend is DependsOn (operands include the arguments of append, which is an
+// ordinary call in SSA, so this is the same relation; kept separate for readability).
+func DependsOnThroughAppend(v ssa.Value, pred func(ssa.Value) bool) bool { return DependsOn(v, pred) }
